@@ -378,3 +378,19 @@ func SortedIDs(evs []*mocrelay.Event) []string {
 	sort.Strings(out)
 	return out
 }
+
+// IDsShort returns the abbreviated ids in order.
+func IDsShort(evs []*mocrelay.Event) []string {
+	out := make([]string, len(evs))
+	for i, e := range evs {
+		out[i] = Short(e.ID)
+	}
+	return out
+}
+
+// SortedIDsShort returns sorted abbreviated ids.
+func SortedIDsShort(evs []*mocrelay.Event) []string {
+	out := IDsShort(evs)
+	sort.Strings(out)
+	return out
+}
